@@ -547,8 +547,11 @@ def _guarded(shard):
 
 
 def _u():
+    # the quoting/unquoting/parsing functions are evaluated as the second call with the same arguments
     from boltons import urlutils
-    return urlutils
+    return inputs.SecondCallModule(urlutils, names=('unquote', 'unquote_to_bytes', 'quote_path_part', 'quote_query_part',
+                                                    'quote_fragment_part', 'quote_userinfo_part', 'parse_url',
+                                                    'parse_qsl', 'parse_host', 'find_all_links'))
 
 
 def _record(t, case, results):
